@@ -70,7 +70,16 @@ class Prov:
                 elif cal == SPAN + "::range":
                     from rules import panics
                     a0, a1 = panics._int_const(b, c.args[0]), panics._int_const(b, c.args[1])
-                    out.add("default" if (a0 == 0 and a1 == 0) else "token")
+                    if a0 == 0 and a1 == 0:
+                        out.add("default")
+                    else:
+                        # numbers that are peg positions are indices into the token list, not byte offsets
+                        from vlib.numflow import sources_of
+                        src = sources_of(self.prog, b, c.args[0]) | sources_of(self.prog, b, c.args[1])
+                        if any(x[0] == "field" and x[1].startswith("peg_runtime::RuleResult") for x in src):
+                            out.add("index")
+                        else:
+                            out.add("token")
                 elif cal in (SPAN + "::join", SPAN + "::join2"):
                     out.add("token")
                 elif cal.endswith("Clone>::clone") or cal == SPAN + "::with_file_id" or cal.endswith("::borrow") or cal.endswith("::deref"):
@@ -225,11 +234,16 @@ def rule_prov(ctx, rep):
                     srcs = {("synthetic", cal.split("::")[-1])}
             inst = "%s|Label::span#%d" % (fn, k)
             where = loc_str(b.f, c.loc)
-            bad = [s for s in srcs if s[0] != "synthetic" and prov.get(s) and prov[s] <= {"default"}]
+            bad = [s for s in srcs if s[0] != "synthetic" and prov.get(s) and prov[s] <= {"default", "index"}]
             if bad:
                 for s in sorted(bad):
-                    r.finding("%s|reads %s.%s" % (inst, s[0].split("::")[-1], s[1]), where,
-                              "the label's span comes from %s.%s, which the parser only ever fills with SourceSpan::default(): the diagnostic points at offset 0..0" % (s[0].split("::")[-1], s[1]))
+                    if "index" in prov[s]:
+                        r.finding("%s|reads %s.%s|token-index" % (inst, s[0].split("::")[-1], s[1]), where,
+                                  "the label's span comes from %s.%s, which the grammar fills with peg position!() values - indices into the token list, not byte "
+                                  "offsets: the label covers unrelated text near the top of the file" % (s[0].split("::")[-1], s[1]))
+                    else:
+                        r.finding("%s|reads %s.%s" % (inst, s[0].split("::")[-1], s[1]), where,
+                                  "the label's span comes from %s.%s, which the parser only ever fills with SourceSpan::default(): the diagnostic points at offset 0..0" % (s[0].split("::")[-1], s[1]))
             else:
                 r.ok(inst, where, ",".join("%s.%s" % (s[0].split("::")[-1], s[1]) for s in sorted(srcs)) or "span source not a DSL field")
     # join2: `end` must be fed from an `.end`
